@@ -7,6 +7,9 @@ mod conc;
 mod exec;
 mod faults;
 mod gen2;
+mod gen3;
+mod hist;
+mod oracle;
 mod harness;
 mod ops;
 mod prng;
@@ -40,6 +43,7 @@ fn main() {
             println!("property={} tier={} VERIF_SEED={} workers={}", args[2], tier.name(), harness::base_seed(), harness::n_workers());
             match args[2].as_str() {
                 "C07" => props::c07::check(tier),
+                "C01" | "C02" | "C03" | "C04" | "C05" | "C18" => props::hprops::check(&args[2], tier),
                 _ => {
                     eprintln!("HARNESS-ERROR unknown property {}", args[2]);
                     2
@@ -60,6 +64,7 @@ fn main() {
             });
             match v.property.as_str() {
                 "C07" => props::c07::replay(&v),
+                "C01" | "C02" | "C03" | "C04" | "C05" | "C18" => props::hprops::replay(&v),
                 _ => {
                     eprintln!("HARNESS-ERROR unknown property {}", v.property);
                     2
